@@ -370,6 +370,56 @@ def g_c14_dns(repo, n, seed):
         d.close()
     return out
 
+
+# ----------------------------------------------------------------------------- C08: global mutable state (syntactic frame)
+def g_c08_statics(repo):
+    """C08 frame, syntactic half: the connection table CONTABLE is the only global mutable state of the crate, so a
+    function that is not handed the table (no World parameter in the verified text, rule R4) cannot make one frame's
+    reply depend on another frame.  Scans every non-test source file for `static mut`, interior-mutable statics
+    (Mutex/RwLock/RefCell/Cell/Atomic*/OnceCell inside `static` or `lazy_static!`) and `thread_local!`."""
+    import rustscan
+    found = []
+    srcdir = os.path.join(repo, 'src')
+    for root, _, files in os.walk(srcdir):
+        for fn in sorted(files):
+            if not fn.endswith('.rs') or fn == 'verif_driver.rs': continue
+            path = os.path.join(root, fn)
+            src = open(path, encoding='utf-8').read()
+            m = rustscan.mask(src)
+            # drop #[cfg(test)] modules
+            tests = [(mo.start(), rustscan.match_close(m, m.index('{', mo.end()))) for mo in _re.finditer(r'#\[cfg\(test\)\]\s*(?:pub\s+)?mod\s+\w+\s*', m)]
+            def in_test(o): return any(a <= o <= b for a, b in tests)
+            rel = os.path.relpath(path, repo)
+            for mo in _re.finditer(r'\bstatic\s+mut\s+(\w+)', m):
+                if not in_test(mo.start()): found.append((rel, 'static mut', mo.group(1)))
+            for mo in _re.finditer(r'\bthread_local!\s*[\{\(]', m):
+                if not in_test(mo.start()): found.append((rel, 'thread_local', ''))
+            for mo in _re.finditer(r'\bstatic\s+(?:ref\s+)?(\w+)\s*:\s*([^=;]+)[=;]', m):
+                if in_test(mo.start()): continue
+                ty = mo.group(2)
+                if _re.search(r'\b(Mutex|RwLock|RefCell|Cell|UnsafeCell|OnceCell|OnceLock|Atomic\w+)\b', ty):
+                    found.append((rel, 'interior-mutable static', mo.group(1)))
+    names = sorted(set(n for _, _, n in found))
+    ok = names == ['CONTABLE']
+    return ok, {'obligation': 'ground/C08/global-mutable-state', 'found': ['%s: %s %s' % f for f in found], 'expected': ['src/proto/tcb.rs: interior-mutable static CONTABLE']}
+
+
+# ----------------------------------------------------------------------------- C11/C13: dead rows of the HTTP method automaton
+def g_http_dead_rows(th):
+    """axiom_http_dead_rows (contracts/proto__http.vspec): the closure of UNANCHORED_STATE (row 1) under the symbols of
+    all 256 byte values contains no row that reports the method id 0."""
+    w = 1 << th['row_shift']
+    c2s = th['char_to_symbol']
+    seen = {1}; todo = [1]
+    while todo:
+        r = todo.pop()
+        for b in range(256):
+            r2 = th['transitions'][r * w + c2s[b]]
+            if r2 not in seen:
+                seen.add(r2); todo.append(r2)
+    bad = [r for r in sorted(seen) if 0 in th['matches'][r]['ids'][:th['matches'][r]['count']]]
+    return not bad, {'obligation': 'ground/http-dead-rows', 'closure_of_unanchored': sorted(seen), 'rows_reporting_a_method': bad}
+
 # ----------------------------------------------------------------------------- per-property driver
 def run(pid, tier, repo, build, seed):
     res = {'obligations': 0, 'discharged': 0, 'violations': [], 'undecided': [], 'details': []}
@@ -410,6 +460,9 @@ def run(pid, tier, repo, build, seed):
             okh = bool(hids) and min(hids) >= 0 and max(hids) <= 4 and th['match_limit'] > 1 and all(m['count'] <= 1 for m in th['matches'][:th['state_count']])
             add(okh, {'obligation': 'ground/http-table-facts', 'ids': hids, 'match_limit': th['match_limit']}, 'ground/http-table-facts',
                 'axiom_http_table: ids of HTTP_SMACK within 0..4, one id per match row, BASE and UNANCHORED are resting states')
+            if pid in ('C11', 'C13', 'C01'):
+                ok_, info_ = g_http_dead_rows(th)
+                add(ok_, info_, 'ground/http-dead-rows', 'axiom_http_dead_rows: no method can be reported from the closure of UNANCHORED_STATE: %s' % info_)
             if pid == 'C10':
                 sigs = signature_set(repo)
                 st, disc = product_explore(tp, sigs)
@@ -480,6 +533,10 @@ def run(pid, tier, repo, build, seed):
                 first = g_['bad'][0] if g_['bad'] else {}
                 add(not g_['bad'], dict(first, obligation=name, calls=g_['n'], mismatches=len(g_['bad'])), name,
                     'BOUNDED: portmapper reply for this version/procedure equals the reply the statement asks for (%d sampled destinations)' % g_['n'], bounded=True)
+        if pid in ('C08', 'C09'):
+            ok_, info = g_c08_statics(repo)
+            add(ok_, info, 'ground/C08/global-mutable-state',
+                'CONTABLE is the only global mutable state of the crate (static mut / interior-mutable statics / thread_local): %s' % info['found'])
         if pid in ('C07', 'C08'):
             rep, info = g_cookie_collision(repo)
             # the obligation "distinct flows have distinct cookies" is FALSE when the witness reproduces
